@@ -34,6 +34,12 @@ const CORPUS: &[&str] = &[
     "MOVE b[0] a[0]\nMOVE c[0] a[0]\nMOVE a[0] 1\nMOVE b[0] a[0]\n",
     "ADD a[0] a[0]\nADD a[0] a[0]\n",
     "EXCHANGE a[0] b[0]\nEXCHANGE b[0] a[0]\nSTORE a b[0] c[0]\nLOAD c[0] a b[0]\n",
+    // read set overlapping the capture set of ONE instruction (waveform parameter / duration mention the target
+    // region): a generator gap found by an independently seeded mutation
+    "DEFFRAME 0 \"ro_rx\":\n    SAMPLE-RATE: 1.0\nCAPTURE 0 \"ro_rx\" flat(duration: 1.0, iq: ro[1]) ro[0]\n",
+    "DEFFRAME 0 \"ro_rx\":\n    SAMPLE-RATE: 1.0\nRAW-CAPTURE 0 \"ro_rx\" ro[0] ro\n",
+    "DEFFRAME 0 \"ro_rx\":\n    SAMPLE-RATE: 1.0\nMOVE ro[0] 1\nNONBLOCKING CAPTURE 0 \"ro_rx\" flat(duration: 1.0, iq: ro[1], scale: b[0]) ro[0]\nMOVE b[0] ro[1]\nRAW-CAPTURE 0 \"ro_rx\" b[0] ro[2]\n",
+    "EXCHANGE a[0] a[1]\nSTORE a a[0] a[1]\nLOAD a[0] a a[1]\n",
     // error paths
     "MOVE a[0] 1\nX 0\n",
     "MOVE a[0] 1\nWAIT\nMOVE a[0] 2\n",
@@ -136,6 +142,10 @@ pub fn table() -> TableHandler {
             c(&[0, 1], &[]),                                                                               // 6: R a, R b
             Row { role: 1, scheduled: false, writes: vec![0], captures: vec![0], frames: None, ..Row::default() }, // 7: W a + C a, no frames
             c(&[], &[]),                                                                                   // 8: nothing
+            Row { role: 1, scheduled: true, reads: vec![0], captures: vec![0], frames: Some((vec![0], vec![])), ..Row::default() }, // 9: read a + capture a
+            Row { role: 1, scheduled: true, reads: vec![0], writes: vec![0], captures: vec![0], frames: Some((vec![1], vec![])), ..Row::default() }, // 10: read + write + capture a
+            Row { role: 1, scheduled: true, reads: vec![0, 1], captures: vec![0], frames: None, ..Row::default() }, // 11: read a, b + capture a
+            Row { role: 1, scheduled: true, reads: vec![1], captures: vec![0], frames: Some((vec![0], vec![])), ..Row::default() }, // 12: read b + capture a
         ],
     }
 }
